@@ -94,6 +94,15 @@ def factor_grid(ct, tier, rng):
         add(3, 2 ** 61 - 1)
         add(2 ** 63 - 25, 1)
         add(1, 2 ** 63 - 25)
+    # two large coprime numbers that both fit the rep: factors just below and just above 1 whose numerator is near max(T)
+    # (for a sub-int rep the product x*N then approaches max(T)^2, the limit of the promoted type)
+    import sympy
+    p2 = int(sympy.prevprime(min(hi, 2 ** 63) + 1))
+    p1 = int(sympy.prevprime(p2))
+    add(p1, p2)
+    add(p2, p1)
+    half = int(sympy.nextprime(hi // 2 + 1))
+    add(half, p2)
     if tier == "thorough":
         for x in pick[::3]:
             for y in pick[1::4]:
